@@ -80,8 +80,15 @@ DetOK(t) ==
   /\ t.perm_a = t.perm_a2          \* same state twice
   /\ t.perm_a = t.perm_b           \* other instructions, other submission order, same size
 
+\* the same with batches that refer to orders created in the same step and with environments that
+\* have a history (earlier steps of the same / another batch size): all index permutations equal
+Det2OK(t) ==
+  /\ \A k \in 1..Len(t.perms) : IsPerm([i \in 1..t.n |-> t.perms[k][i] + 1], t.n)
+  /\ \A k \in 1..Len(t.perms) : t.perms[k] = t.perms[1]
+
 TableOK(t) ==
   CASE t.kind = "perm" -> PermTableOK(t)
+    [] t.kind = "det2" -> Det2OK(t)
     [] t.kind = "pos"  -> PosTableOK(t)
     [] t.kind = "pair" -> PairTableOK(t)
     [] t.kind = "det"  -> DetOK(t)
@@ -101,7 +108,10 @@ StatOK ==
                                          event |-> [kind |-> Tables[CHOOSE i \in BadTables : \A j \in BadTables : i <= j].kind,
                                                     n |-> Tables[CHOOSE i \in BadTables : \A j \in BadTables : i <= j].n,
                                                     env |-> Tables[CHOOSE i \in BadTables : \A j \in BadTables : i <= j].env,
-                                                    N |-> Tables[CHOOSE i \in BadTables : \A j \in BadTables : i <= j].N],
+                                                    detail |-> LET t == Tables[CHOOSE i \in BadTables : \A j \in BadTables : i <= j] IN
+                                                               IF t.kind = "det2"
+                                                               THEN [seed |-> t.seed, differs |-> {t.labels[k] : k \in {k \in 1..Len(t.perms) : t.perms[k] # t.perms[1]}}]
+                                                               ELSE IF t.kind = "det" THEN [seed |-> t.seed, differs |-> {}] ELSE [seed |-> "-", differs |-> {}]],
                                          bad_tables |-> Cardinality(BadTables)])>>) /\ FALSE
 BijectionOK == Bijection
 =============================================================================
